@@ -104,6 +104,11 @@ def templates():
     add("existsSchema", "ddlTarget", "schema", (1,), "create schema s2", "create-schema")
     add("existsSchema", "ddlTarget", "schema", (2,), "create schema db1.s2", "create-schema")
     add("existsDatabase", "ddlTarget", "database", (1,), "create database db2", "create-database")
+    # statements with nothing wrong but the session: they must be refused (90105 / 90106), not run against some default schema
+    add("unknownTable", "ddlTarget", "table", (1,), "create table z9 (a int)", "would-succeed-create-table")
+    add("unknownTable", "ddlTarget", "table", (1,), "create view zv9 as select 1 a", "would-succeed-create-view")
+    add("unknownTable", "dmlTarget", "table", (1,), "insert into t2 values (5)", "would-succeed-insert")
+    add("unknownTable", "query", "table", (1,), "select * from t", "would-succeed-select")
     # finding positions (run with database+schema set only)
     add("unknownTable", "commentTarget", "noTable", (1,), "comment on table nope is 'c'", "comment-on")
     add("unknownTable", "commentTarget", "noTable", (1,), "alter table nope set comment = 'c'", "set-comment")
@@ -120,8 +125,15 @@ def templates():
 FINDING_POS = ("commentTarget", "showScope", "dropDatabase")
 STATES = {"TT": (True, True, dict(database="db1", schema="s1")), "TF": (True, False, dict(database="db1")), "FF": (False, False, {}),
           # reached from "no database" by USE statements: a qualified USE SCHEMA, or USE DATABASE followed by USE SCHEMA
-          "UQ": (True, True, {}), "UD": (True, True, {})}
-STATE_SETUP = {"UQ": ["use schema db1.s1"], "UD": ["use database db1", "use schema s1"]}
+          "UQ": (True, True, {}), "UD": (True, True, {}),
+          # the session's own current schema (an empty S3) dropped by this connection: database only
+          "DS": (True, False, dict(database="db1", schema="s3")), "DSQ": (True, False, dict(database="db1", schema="s3")),
+          "DSI": (True, False, dict(database="db1", schema="s3")),
+          "S3": (True, True, dict(database="db1", schema="s3"))}     # op sequences only: starts with a current schema S3
+STATE_SETUP = {"UQ": ["use schema db1.s1"], "UD": ["use database db1", "use schema s1"],
+               "DS": ["drop schema s3"], "DSQ": ["drop schema db1.s3"], "DSI": ["drop schema if exists s3"]}
+SCEN_STATES = ["TT", "TF", "FF", "UQ", "UD", "DS", "DSQ", "DSI"]
+NO_SCHEMA_STATES = ("TF", "FF", "DS", "DSQ", "DSI")
 
 
 def render(t):
@@ -147,7 +159,11 @@ def scen_cases():
     cases = []
     tpls = templates()
     for t in tpls:
-        for st in STATES:
+        for st in SCEN_STATES:
+            if t["variant"].startswith("would-succeed") and st not in NO_SCHEMA_STATES:
+                continue  # statements that are only wrong because the session lacks the schema / database they need
+            if st in ("DSQ", "DSI") and not t["variant"].startswith("would-succeed"):
+                continue  # the other spellings of the DROP: the statements that would otherwise succeed are enough
             if t["pos"] in FINDING_POS and st != "TT":
                 continue
             if st in STATE_SETUP and (t["pos"] in FINDING_POS or not is_first_qual(tpls, t) or t["variant"] == "cte"):
@@ -289,7 +305,15 @@ EXTRA = {
     "use-schema-qualified": ("use schema db1.s1", "x:0:0:-:00.0.q.-", "ok"),
     "use-database": ("use database db1", "x:0:0:-:00.0.d.-", "ok"),
     "use-schema": ("use schema s1", "x:0:0:-:00.0.s.-", "ok"),
+    "describe-missing": ("select * from nope", "x:0:0:-:11.2.-.-", "P:2003:42S02"),          # op kind "B"
+    "describe-missing-column": ("select nocol from t", "x:0:0:-:11.1.-.-", "P:2043:02000"),  # op kind "B"
+    "drop-current-schema": ("drop schema s3", "x:0:0:-:10.0.k.-", "ok"),
+    "drop-current-schema-qualified": ("drop schema db1.s3", "x:0:0:-:00.0.k.-", "ok"),
+    "drop-current-schema-if-exists": ("drop schema if exists s3", "x:0:0:-:10.0.k.-", "ok"),
+    "create-z": ("create table z9 (a int)", "x:0:0:-:11.0.-.-", "ok"),
+    "select-qualified": ("select * from db1.s1.t", "x:0:0:-:00.0.-.-", "ok"),
 }
+DESCRIBES = ["describe-select", "describe-missing", "describe-missing-column"]
 # checked `cursor.description` reads (op kind "D"): wire encoding of the DESCRIBE call + DuckDB's reaction, demanded outcome when open
 DESCR = {"plain": ("d:11.0.-.-", "ok"), "dropped-table": ("d:11.2.-.-", "P:2003:42S02"), "dropped-column": ("d:11.1.-.-", "P:2043:02000")}
 OTHERS = ["fetchall", "fetchone", "description", "rowcount", "fetchmany"]
@@ -307,6 +331,15 @@ def designed_seqs():
     out.append({"kind": "seq", "ops": tmp + [["y", "drop table tmpx"], ["D", "dropped-table"], ["o", "fetchall"], ["x", "ok-const"], ["D", "plain"]]})
     out.append({"kind": "seq", "ops": tmp + [["y", "alter table tmpx drop column a"], ["D", "dropped-column"], ["x", "fail-table"], ["D", "dropped-column"]]})
     out.append({"kind": "seq", "ops": tmp + [["y", "drop table tmpx"], ["c", "close"], ["D", "dropped-table"]]})
+    # describe() is an execute on the cursor itself: it sets / clears cursor.sqlstate like any other
+    for a in ("fail-column", "fail-table", "ok-select", "undefined-var"):
+        for b in DESCRIBES:
+            out.append({"kind": "seq", "ops": [["x", a], ["B", b], ["o", "fetchall"], ["o", "rowcount"], ["x", "ok-const"], ["B", b]]})
+    out.append({"kind": "seq", "ops": [["B", "describe-missing"], ["B", "describe-select"], ["B", "describe-missing-column"], ["x", "fail-table"], ["B", "describe-select"]]})
+    # the session drops its own current schema (an empty S3), in three spellings
+    for d in ("drop-current-schema", "drop-current-schema-qualified", "drop-current-schema-if-exists"):
+        for x in ("create-z", "ok-select", "fail-table", "ok-insert"):
+            out.append({"kind": "seq", "state": "S3", "ops": [["x", d], ["x", x], ["x", "select-qualified"], ["x", "ok-const"], ["x", "use-schema"], ["x", "ok-select"], ["x", "fail-column"]]})
     for x in ("ok-select", "fail-table", "fail-column", "fail-exists", "fail-values", "ok-insert"):
         out.append({"kind": "seq", "state": "FF", "ops": [["x", x]]})
         out.append({"kind": "seq", "state": "FF", "ops": [["x", "use-database"], ["x", x]]})
@@ -321,13 +354,15 @@ def gen_seq(rnd, with_close):
     ops = []
     for _ in range(n):
         r = rnd.random()
-        if r < 0.3:
+        if r < 0.1:
+            ops.append(("B", rnd.choice(DESCRIBES)))
+        elif r < 0.35:
             ops.append(("o", rnd.choice(OTHERS)))
         else:
             ops.append(("x", rnd.choice(names)))
     if with_close:
         ops.insert(rnd.randint(1, len(ops)), ("c", "close"))
-        ops += [("x", rnd.choice(names)) for _ in range(rnd.randint(1, 3))] + [("o", rnd.choice(OTHERS))]
+        ops += [("x", rnd.choice(names)) for _ in range(rnd.randint(1, 3))] + [("B", rnd.choice(DESCRIBES)), ("o", rnd.choice(OTHERS))]
     return ops
 
 
